@@ -78,6 +78,12 @@ Theorem class_table_ops :
   op_of_kind (kind_of cls_XorState) = Some BXor.
 Proof. vm_compute. repeat split; reflexivity. Qed.
 
+(* the memo key of glue/core/decorators.py is the plain argument tuple (state, data, view / call form): views enter it as they
+   are (a list or array view is unhashable and bypasses the cache; a tuple and a list never share an entry), and `memoize`
+   is the wrapper [with_memo] describes *)
+Theorem memo_key_plain_table : memo_key_plain = 1 /\ memo_wrapper_plain = 1.
+Proof. vm_compute. split; reflexivity. Qed.
+
 (* every class of the family other than the base class has its own copy(): the inherited one returns an
    empty selection *)
 Theorem every_class_overrides_copy :
